@@ -264,3 +264,40 @@ def check_newline_transparency(prog: Program, res: Result, rule: str) -> None:
             else:
                 res.fail(rule, file=mod.relpath, line=c.lineno, qualname=q, construct=f"{norm(c, 60)} with newline={norm(nl)}", message=f"the output buffer is built with newline={norm(nl)}: CR / CRLF written by the template are rewritten", what=what)
     res.floor(rule, "output buffer constructions", n_ctor, 3)
+
+
+def check_buffer_factories_fresh(prog: Program, res: Result, rule: str) -> None:
+    """The capture-buffer factory (RenderContext.get_output_buffer) returns a newly constructed buffer on every path -
+    never its parent, a parameter or a stored object - so captured text is never written into the discarding NullIO of a
+    suppressed block (or into the caller's stream)."""
+    from sa.report import AnalysisError
+
+    ctx = prog.cls("liquid2.context.RenderContext")
+    f = ctx.methods.get("get_output_buffer")
+    if f is None:
+        raise AnalysisError("RenderContext.get_output_buffer vanished")
+    rets = [r for r in ast.walk(f.node) if isinstance(r, ast.Return)]
+    res.floor(rule, "returns of get_output_buffer", len(rets), 2)
+    for r in rets:
+        v = r.value
+        site = f"{f.file}:{r.lineno} RenderContext.get_output_buffer"
+        what = f"`{norm(r, 60)}` hands out a newly constructed buffer"
+        fresh = isinstance(v, ast.Call) and (dotted(v.func) or "").split(".")[-1] in ("StringIO", "LimitedStringIO")
+        if fresh:
+            res.ok(rule, site, what, "constructor call")
+        else:
+            res.fail(rule, file=f.file, line=r.lineno, qualname="RenderContext.get_output_buffer", construct=f"{norm(r, 60)} is not a fresh buffer", message=f"get_output_buffer can return `{norm(v, 40) if v is not None else None}` instead of a new buffer: a capture (or macro/block render) then writes into the buffer it was given - inside a suppressed blank block that is the discarding NullIO, so the captured text is lost with the whitespace", what=what)
+    # NullIO is constructed only by BlockNode's suppression path
+    n_null = 0
+    for mod in prog.modules.values():
+        for c in ast.walk(mod.tree):
+            if isinstance(c, ast.Call) and (dotted(c.func) or "").split(".")[-1] == "NullIO":
+                n_null += 1
+                fi = prog.enclosing_function(mod, c)
+                q = fi.qualname if fi else "<module>"
+                what = f"`{norm(c)}` built only by BlockNode.render_to_output[_async]"
+                if fi is not None and fi.cls is not None and fi.cls.full == "liquid2.ast.BlockNode":
+                    res.ok(rule, f"{mod.relpath}:{c.lineno} {q}", what, "the suppression path")
+                else:
+                    res.fail(rule, file=mod.relpath, line=c.lineno, qualname=q, construct=f"NullIO() in {q}", message=f"{q} builds a discarding buffer outside BlockNode's blank-block suppression: whatever is rendered into it is lost", what=what)
+    res.floor(rule, "NullIO constructions", n_null, 2)
